@@ -1,7 +1,7 @@
 """C05 — the on-disk R-tree finds exactly what a linear scan finds, for every tree shape."""
 import os
 from vlib import CaseT, run_model, f32bits
-from wbprop import WigBedProp
+from wbprop import WigBedProp, byte_level_check
 import bbgen
 
 
@@ -107,6 +107,7 @@ class C05(WigBedProp):
         return bbgen.oracle_wig_queries(case, il) or bbgen.oracle_zoom(case, il, False)
 
     def extra_checks(self, rep, tier, rng, workdir):
+        byte_level_check(self, rep, workdir)
         """the byte-level reader model and the Lean certificate on the implementation's own bytes"""
         outdir = os.path.join(workdir, "main", "out")
         main_cases = {c.id: c for c in self._last_cases}
